@@ -56,29 +56,29 @@ type Enc struct {
 	Spec *FuncSpec
 	bv   bool
 
-	declOrd  []string
-	decls    map[string]Sort
-	defs     map[string]Term
-	facts    []Fact
-	factsBy  map[string][]int
-	obligs   []*Oblig
-	names    map[string]int
-	nfresh   int
-	famSort  map[string]Sort
-	inputs   []string
-	warnings []string
-	unsupported string // non-empty: function could not be encoded soundly
+	declOrd     []string
+	decls       map[string]Sort
+	defs        map[string]Term
+	facts       []Fact
+	factsBy     map[string][]int
+	obligs      []*Oblig
+	names       map[string]int
+	nfresh      int
+	famSort     map[string]Sort
+	inputs      []string
+	warnings    []string
+	unsupported string                 // non-empty: function could not be encoded soundly
 	gmTerms     map[string]*ssa.Global // spec terms that denote an immutable package-level map
-	ghostEntry map[string]Term
+	ghostEntry  map[string]Term
 
-	oldState *State
-	specErrs []string
-	inferred map[*loopInfo][]*Clause
-	usedInvs map[string]bool
-	houdini    bool
-	firstRound bool
-	keptInv    map[loopKey][]*Clause
-	candByLoop map[loopKey][]*Clause
+	oldState    *State
+	specErrs    []string
+	inferred    map[*loopInfo][]*Clause
+	usedInvs    map[string]bool
+	houdini     bool
+	firstRound  bool
+	keptInv     map[loopKey][]*Clause
+	candByLoop  map[loopKey][]*Clause
 	faultPoints []string
 	usedAssumes map[string]bool
 	waived      []string
